@@ -624,9 +624,21 @@ func (p *Parser) parseSlots() []*ast.SlotStmt {
 
 		p.nextToken() // skip "@end"
 
-		for p.curTokenIs(token.HTML) {
+		for p.curTokenIs(token.HTML) && isWhitespace(p.curToken.Literal) {
 			p.nextToken() // skip whitespace
 		}
+	}
+
+	// the slots are followed by the "@end" of the component
+	if !p.curTokenIs(token.END) {
+		p.newError(
+			p.curToken.ErrorLine(),
+			fail.ErrWrongNextToken,
+			token.String(token.END),
+			token.String(p.curToken.Type),
+		)
+
+		return nil
 	}
 
 	return slots
